@@ -7,9 +7,9 @@
 EXTENDS Naturals, Sequences, TLC, Json
 Links == {"eth", "vlan", "qinq"}
 IP4Opts == {"none", "nop", "rr", "sec", "nopnop_ts", "odd", "max"}
-Exts == {"none", "hbh", "dst", "hbh_dst", "rt", "hbh_rt_dst", "hbh7", "dst3", "dst15_hbh"}
+Exts == {"none", "hbh", "dst", "hbh_dst", "rt", "hbh_rt_dst", "hbh7", "dst3", "dst15_hbh", "hbh7_dst3", "hbh1_dst1_dst9"}
 TCPOpts == {"none", "mss", "mss_ws", "ts", "sack", "typical", "nop_raw", "empty_opt"}
-Pays == {"empty", "one", "odd", "even", "ones", "zeros", "carry", "big", "huge"}
+Pays == {"empty", "one", "odd", "even", "ones", "zeros", "carry", "cksum0", "big", "huge"}
 Shapes == {[link |-> l, net |-> "ip4", ip4opts |-> o, ext |-> "none", tr |-> t, tcpopts |-> (IF t = "tcp" THEN to ELSE "none"), pay |-> p] :
               l \in Links, o \in IP4Opts, t \in {"tcp", "udp", "icmp"}, to \in TCPOpts, p \in Pays}
           \cup {[link |-> l, net |-> "ip6", ip4opts |-> "none", ext |-> x, tr |-> t, tcpopts |-> (IF t = "tcp" THEN to ELSE "none"), pay |-> p] :
